@@ -106,6 +106,17 @@ class Interp:
     def apply(self, op):
         pa, Segment = self.pa, self.Segment
         kind = op["op"]
+        if kind == "new_dissim":
+            # constructing another dissimilarity is a computation too: the ones already held must not change
+            before = self.snapshot()
+            spec = dict(SPECS[op["k"] % len(SPECS)])
+            spec["delta"] = [0.25, 0.5, 2.0, 3.0][op["k"] % 4]
+            if spec["kind"] == "combined":
+                spec["cat"] = None if op["k"] % 2 else spec["cat"]
+            oracle.build_dissim(spec, cache=False)
+            self.calls.add("new_dissim")
+            self.compare(before, self.snapshot(), set(), "new_dissim")
+            return
         if kind == "new_input":
             if len(self.inputs) < 3:
                 self.inputs.append(oracle.build_continuum(op["cont"]))
@@ -280,6 +291,10 @@ def make_machine():
         @rule(cont=input_continua())
         def new_input(self, cont):
             self.do({"op": "new_input", "cont": cont})
+
+        @rule(k=st.integers(0, 30))
+        def new_dissim(self, k):
+            self.do({"op": "new_dissim", "k": k})
 
         @rule(entry=st.sampled_from(ENTRIES), i=st.integers(0, 2), d=st.integers(0, 3), k=st.integers(0, 30),
               seed=st.integers(0, 10 ** 6), sampler=st.sampled_from(["statistical", "shuffle"]), flags=st.integers(0, 63))
